@@ -1,5 +1,6 @@
 import PrqlModel.Drv.Util
 import PrqlModel.Model.Anchor
+import PrqlModel.Model.Reorder
 /-
 Line protocol for the splitter mirror.
 
@@ -15,6 +16,7 @@ decls  : compute declarations `id|isAgg|win|ex` separated by `;`
 
 asplit <decls> <pipe> <output cids>  ->  rest=<n> missing=<cids> select=<cids> kept=<pipe>
 aanchor <next> <cids at split> <pipe> ->  new=<cids> pipe=<pipe>
+areorder <pipe> -> <pipe>   (preprocess::reorder)
 -/
 namespace Drv.Anchor
 open Model.Anchor
@@ -155,6 +157,10 @@ def handle (fields : List String) : Option String :=
       let (new, q) := anchorSplit n cs p
       some s!"new={showCids new} pipe={showPipe q}"
     | _, _, _ => some "bad-request"
+  | ["areorder", p] =>
+    match pipe p with
+    | some p => some (showPipe (Model.Reorder.reorderTr p))
+    | none => some "bad-request"
   | ["ascope", d, p, out] =>
     match decls d, pipe p, cids out with
     | some d, some p, some out => some s!"wf={wfPipe p out} closed={splitClosedB d p out}"
